@@ -87,6 +87,10 @@ fn run_two(stim: &Value, rec: &Rec) {
         let mut second = (*base).clone();      // same session storage / ticketer (they are Arcs inside the config)
         second.alpn_protocols = match stim["second_alpn"].as_str().unwrap_or("none") { "http/1.1" => vec![b"http/1.1".to_vec()], "h2" => vec![b"h2".to_vec()], _ => vec![] };
         let cfgs = [base, Arc::new(second)];
+        // stim.second_client_auth = "required": both servers are built by tonic itself (ServerTlsConfig), the first without client
+        // authentication, the second requiring a certificate of the client CA: two configurations of one process share nothing that
+        // would let a session of the first be resumed on the second
+        let tonic_built = stim["second_client_auth"].as_str() == Some("required");
         let t = ClientTlsConfig::new().ca_certificate(Certificate::from_pem(pem("ca_a.pem"))).domain_name("good.test").assume_http2(stim["assume_http2"].as_bool().unwrap_or(false));
         let ep = match tonic::transport::Endpoint::from_static("https://good.test").tls_config(t) { Ok(e) => e, Err(e) => { log.ev(json!({"e":"client","connect":"config_err","call":"none","code":-1,"msg":e.to_string()})); return; } };
         let first = Arc::new(Mutex::new(vec![]));
@@ -97,7 +101,12 @@ fn run_two(stim: &Value, rec: &Rec) {
             let resumed = Arc::new(Mutex::new(None::<bool>));
             let resumed2 = resumed.clone();
             let log2 = log.clone();
-            let srv = tokio::spawn(async move {
+            let srv = if tonic_built {
+                let mut t = ServerTlsConfig::new().identity(Identity::from_pem(pem("server.pem"), pem("server.key")));
+                if round == 1 { t = t.client_ca_root(Certificate::from_pem(pem("ca_c.pem"))); }
+                let incoming = tokio_stream::StreamExt::chain(tokio_stream::once(Ok::<_, std::io::Error>(s_io)), tokio_stream::pending());
+                tokio::spawn(async move { if let Ok(mut b) = tonic::transport::Server::builder().tls_config(t) { let _ = b.add_service(svc).serve_with_incoming(incoming).await; } })
+            } else { tokio::spawn(async move {
                 match acceptor.accept(s_io).await {
                     Ok(tls) => {
                         *resumed2.lock().unwrap() = Some(tls.get_ref().1.handshake_kind() == Some(rustls::HandshakeKind::Resumed));
@@ -105,7 +114,7 @@ fn run_two(stim: &Value, rec: &Rec) {
                         let _ = tonic::transport::Server::builder().add_service(svc).serve_with_incoming(incoming).await; }
                     Err(e) => log2.ev(json!({"e":"server_handshake_failed","msg":e.to_string()})),
                 }
-            });
+            }) };
             let mut slot = Some(TapIo { inner: c_io, first: first.clone() });
             let ch = tokio::time::timeout(Duration::from_secs(30), ep.connect_with_connector(tower::service_fn(move |_: http::Uri| { let io = slot.take(); async move { io.map(hyper_util::rt::TokioIo::new).ok_or_else(|| std::io::Error::other("gone")) } }))).await;
             let (connect, call, code) = match ch {
